@@ -598,11 +598,12 @@ def spawn_layer_in_subprocess(result, script_parts, options, features,
         stderr_thread.join()
         errlines = stderr_buf[0].splitlines()
         erriter = iter(errlines)
-        nfail = nerr = 0
+        nfail = nerr = nskip = 0
         got_header = False
         for line in erriter:
             try:
-                result.num_ran, nfail, nerr = map(int, line.strip().split())
+                result.num_ran, nfail, nerr, nskip = map(
+                    int, line.strip().split())
             except ValueError:
                 continue
             else:
@@ -656,6 +657,7 @@ def spawn_layer_in_subprocess(result, script_parts, options, features,
         else:
             failures.extend(new_failures)
             errors.extend(new_errors)
+            skipped.extend([("skipped test in %s" % layer_name, None)] * nskip)
 
     finally:
         result.done = True
